@@ -798,83 +798,106 @@ var All = []Body{
 			s string
 		}
 		var hs []held
-		hold := func(b []byte) {
+		hold := func(b []byte) string {
 			hs = append(hs, held{b, string(b)})
+			return string(b)
 		}
-		run := func(kind int, src string) {
+		// a stepper returns the next token of one instance as text, and false when the instance is finished
+		mk := func(kind int, src string) func() (string, bool) {
 			in := parse.NewInputBytes(pick(0, src))
 			switch kind {
 			case 0:
 				l := css.NewLexer(in)
-				for {
+				return func() (string, bool) {
 					tt, d := l.Next()
-					hold(d)
-					if tt == css.ErrorToken {
-						break
-					}
+					return fmt.Sprintf("%v %q", tt, hold(d)), tt != css.ErrorToken
 				}
 			case 1:
 				l := html.NewLexer(in)
-				for {
+				return func() (string, bool) {
 					tt, d := l.Next()
-					hold(d)
-					hold(l.Text())
-					hold(l.AttrVal())
-					if tt == html.ErrorToken {
-						break
-					}
+					return fmt.Sprintf("%v %q %q %q", tt, hold(d), hold(l.Text()), hold(l.AttrVal())), tt != html.ErrorToken
 				}
 			case 2:
 				l := xml.NewLexer(in)
-				for {
+				return func() (string, bool) {
 					tt, d := l.Next()
-					hold(d)
-					hold(l.Text())
-					hold(l.AttrVal())
-					if tt == xml.ErrorToken {
-						break
-					}
+					return fmt.Sprintf("%v %q %q %q", tt, hold(d), hold(l.Text()), hold(l.AttrVal())), tt != xml.ErrorToken
 				}
 			case 3:
 				p := json.NewParser(in)
-				for {
+				return func() (string, bool) {
 					gt, d := p.Next()
-					hold(d)
-					if gt == json.ErrorGrammar {
-						break
-					}
+					return fmt.Sprintf("%v %q %v", gt, hold(d), p.State()), gt != json.ErrorGrammar
 				}
 			case 4:
 				l := js.NewLexer(in)
-				for {
+				return func() (string, bool) {
 					tt, d := l.Next()
-					hold(d)
-					if tt == js.ErrorToken {
-						break
-					}
+					return fmt.Sprintf("%v %q", tt, hold(d)), tt != js.ErrorToken
 				}
-			case 5:
+			default:
 				p := css.NewParser(in, false)
-				for {
+				return func() (string, bool) {
 					gt, _, d := p.Next()
-					hold(d)
+					t := fmt.Sprintf("%v %q", gt, hold(d))
 					for _, val := range p.Values() {
-						hold(val.Data)
+						t += fmt.Sprintf(" %q", hold(val.Data))
 					}
-					if gt == css.ErrorGrammar {
-						break
-					}
+					return t, gt != css.ErrorGrammar
 				}
 			}
 		}
-		srcs := []string{"a{b:c d}@media x{e{f:g}}", "<a b='c' d=\"e\">t</a><!--c-->", "<x y='z'>t<![CDATA[u]]></x>", "{\"a\":[1,\"b\"]}", "let a = `t${b}` + /r/g;", "a , b > c{d:e(f) g}"}
+		all := func(f func() (string, bool)) []string {
+			var r []string
+			for i := 0; i < 10000; i++ {
+				t, more := f()
+				r = append(r, t)
+				if !more {
+					break
+				}
+			}
+			return r
+		}
+		srcs := [][2]string{
+			{"a{b:c d}@media x{e{f:g}}", "@font-face{h:i}j{k:l}"},
+			{"<a b='c' d=\"e\">t</a><!--c-->", "<p><q r=s>u</q></p>"},
+			{"<x y='z'>t<![CDATA[u]]></x>", "<?xml v='1'?><m><n o=\"p\"/></m>"},
+			{"{\"a\":[1,\"b\"]}", "[[{\"c\":{\"d\":[]}}],2]"},
+			{"let a = `t${b}` + /r/g;", "x = {y: `u${`v${w}`}`}"},
+			{"a , b > c{d:e(f) g}", "@media x{h{i:j}}k{l:m}"},
+		}
 		k1, k2 := v%6, (v/6+v+1)%6
-		run(k1, srcs[k1])
+		if v >= 12 {
+			k2 = k1 // two instances of the same kind
+		}
+		// each instance alone
+		solo1 := all(mk(k1, srcs[k1][0]))
+		solo2 := all(mk(k2, srcs[k2][1]))
 		n1 := len(hs)
 		step()
-		run(k2, srcs[k2])
-		step()
-		run(k1, srcs[(k1+1)%6]) // the same kind again on other data
+		// the two instances alive at the same time, stepped alternately
+		f1, f2 := mk(k1, srcs[k1][0]), mk(k2, srcs[k2][1])
+		var got1, got2 []string
+		m1, m2 := true, true
+		for i := 0; (m1 || m2) && i < 10000; i++ {
+			if m1 {
+				var t string
+				t, m1 = f1()
+				got1 = append(got1, t)
+			}
+			if m2 {
+				var t string
+				t, m2 = f2()
+				got2 = append(got2, t)
+			}
+			if i%8 == 0 {
+				step()
+			}
+		}
+		if strings.Join(got1, "|") != strings.Join(solo1, "|") || strings.Join(got2, "|") != strings.Join(solo2, "|") {
+			fmt.Fprintf(&sb, "SELF-CHECK FAILED: stepped alternately the two instances return %q and %q, alone they return %q and %q; ", got1, got2, solo1, solo2)
+		}
 		bad := 0
 		for i, h := range hs {
 			if string(h.b) != h.s {
@@ -884,7 +907,7 @@ var All = []Body{
 				}
 			}
 		}
-		fmt.Fprintf(&sb, "%d+%d slices held, %d changed", n1, len(hs)-n1, bad)
+		fmt.Fprintf(&sb, "%d+%d slices held, %d changed; %q", n1, len(hs)-n1, bad, got1)
 		return sb.String()
 	}},
 	// ---- package strconv ----
